@@ -5,8 +5,8 @@ Require Import TT.Model.Str TT.Model.C06Serde TT.Spec.C06SerdeRule TT.Spec.C06Ke
 
 Definition c06_group_string (g : group) : str := group_string g.
 Definition c06_cgroup_string (g : list cmeta) : str := cgroup_string g.
-Definition c06_model (dfc : str) (c : container) : outcome (list str) := emitted_keys dfc c.
-Definition c06_model_raw (dfc : str) (k : kind) (ctoks : list str) (items : list (str * list str)) : outcome (list str) :=
+Definition c06_model (dfc : str) (c : container) : list str := emitted_keys dfc c.
+Definition c06_model_raw (dfc : str) (k : kind) (ctoks : list str) (items : list (str * list str)) : list str :=
   emitted_keys_raw dfc k ctoks items.
 Definition c06_spec (c : container) : list str := serde_wire_names c.
 Definition c06_oracle (c : container) (observed : list str) : bool := c06_ok c observed.
